@@ -83,8 +83,12 @@ Evict(e) ==
 
 \* Get results: "ok", "err" (GetMany fails) and "empty" (GetMany reports a key as found but with an empty Value:
 \* that is a miss, caching.Item doc / responseCacheLookup)
-GetResults == IF GetFaults THEN {"ok", "err", "empty"} ELSE {"ok"}
-Found(gf) == IF gf = "err" THEN {} ELSE Live(store, clock, KeysOf(CurStep))
+\* Error CLASSES of a failing cache call: a plain error, an error wrapping context.DeadlineExceeded / context.Canceled (the
+\* cache client's own operation timeout while the request context is alive) and a net.Error with Timeout().  The class must
+\* make no difference: a failing GetMany is a miss, a failing SetMany stores an unspecified subset, the request goes on.
+ErrClasses == {"err", "err_deadline", "err_canceled", "err_net"}
+GetResults == IF GetFaults THEN {"ok", "empty"} \cup ErrClasses ELSE {"ok"}
+Found(gf) == IF gf \in ErrClasses THEN {} ELSE Live(store, clock, KeysOf(CurStep))
 IsHit(found, gf) == IF Bug = "partial_as_full" THEN found # {} /\ gf = "ok"
                     ELSE IF Bug = "empty_is_hit" THEN FullHit(found, KeysOf(CurStep))
                     ELSE gf = "ok" /\ FullHit(found, KeysOf(CurStep))
@@ -95,7 +99,7 @@ Lookup(gf) ==
   /\ LET st == CurStep
          found == Found(gf)
          truth == [mark |-> "clean", vals |-> [e \in st.batch |-> Truth(st, e)]]
-     IN IF gf = "err" /\ Bug = "get_err_fails"
+     IN IF (gf \in ErrClasses /\ Bug = "get_err_fails") \/ (gf \in {"err_deadline", "err_canceled"} /\ Bug = "get_ctxerr_fails")
         THEN /\ resp' = Append(resp, [mark |-> "cache-error", vals |-> NoVals])
              /\ ref' = Append(ref, truth)
              /\ Advance(TRUE)
